@@ -261,11 +261,11 @@ COMMON_NOTE = ("Trusted: TLC, the CommunityModules Json/IOUtils, serde_yaml/serd
 T = "explicit TLA+ specification checked with TLC; TLC-enumerated cases and seeded random cases replayed through the engine; recorded API traces validated against the specification by TLC (TraceTau)"
 T_FOLD = T + "; inductive invariant of the streaming fold machines (TauFold) discharged by Apalache in the thorough tier"
 MANIFEST_TEXT = {
- "C01": {"level": "Trace validation of the life-cycle machine (spec/TauRule.tla): for seeded random rules (depth 3, up to 4 identifiers, lists, nested blocks, casts, quantifiers) every one of the 17 switch states is a separate object of one case whose denotation is bound by the first observation; TLC rejects any later verdict that differs and any optimise() that panics. Documents are generated in three modes (negation-free rules; documents on which every predicate is definite; unrestricted) so that most comparisons are strict; comparisons on indefinite documents under a negation are attributed to the recorded known findings about operand reordering. A fifth of the cases also call optimise() a second time with other switches (spec action ReOptimise: the identity). The optimiser IS transcribed pass by pass (spec/TauOpt.tla): TLC checks NoPanic / DenStable / EngInLang on a bounded universe (MC_Opt) and the transcription's prediction is compared with every recorded observation (model_drift, zero so far); it is never the judge, only the explanation of known findings. Random exploration beyond the MC_Opt universe, not exhaustive.",
+ "C01": {"level": "Trace validation of the life-cycle machine (spec/TauRule.tla): for seeded random rules (depth 3, up to 4 identifiers, lists, nested blocks, casts, quantifiers) every one of the 17 switch states is a separate object of one case whose denotation is bound by the first observation; TLC rejects any later verdict that differs and any optimise() that panics. Documents are generated in three modes (negation-free rules; documents on which every predicate is definite; unrestricted) so that most comparisons are strict; comparisons on indefinite documents under a negation are attributed to the recorded known findings about operand reordering. A fifth of the cases also call optimise() a second time with other switches (spec action ReOptimise: the identity). The optimiser IS transcribed pass by pass (spec/TauOpt.tla): TLC checks NoPanic / DenStable / EngInLang on a bounded universe (MC_Opt) and the transcription's prediction is compared with every recorded observation (model_drift, zero so far); it is never the judge, only the explanation of known findings. Random exploration beyond the MC_Opt universe, not exhaustive. Further source family `samef`: 3-5 predicates on ONE field written as separate entries (sequence of one-key mappings, or-ed / and-ed identifiers), singles and short lists of mixed kinds, with per-member documents, anchored words away from their anchor and arrays whose elements satisfy different members, under all 17 switch states.",
          "note": COMMON_NOTE + "Needs no oracle (self-consistency); the language-layer oracle is evaluated as well but not counted here.", "technique": T},
  "C02": {"level": "The language layer spec/TauLang.tla (mapping = conjunction in written order, sequence = disjunction, pattern kinds, numbers, casts, quantifiers, nested mappings, three-valued condition) is evaluated by TLC on every recorded (rule, document) pair: the engine's verdict and three-valued result must lie in the admissible set. Seeded random rules and rule-directed documents (1.5k quick / 30k thorough cases); results the documentation leaves open are admissible sets, not guesses. Which rules are VALID is specified too: spec/TauType.tla (the static semantics of identifier bodies: key modifier x value kind, lists, nesting) decides the load outcome of every rule of an exhaustive small universe (MC_Type: 854 / 7,854 rules, with TLC-checked laws) and of 400 / 8k random well- and ill-typed bodies. The textual layer of mapping KEYS is specified too (spec/TauKeyText.tla: engine layer = condition tokeniser, identifier runs re-joined with one blank, Pratt parse, classification of the root; language layer = the documented key forms NAME, int()/flt()/str()/not()/all()(NAME), of(NAME, N) with their meaning pinned): MC_Key enumerates every concatenation of up to 3 (thorough 4; C16: 4) of 16 pieces (69,905 texts at 4), TLC checks EngInRef / Written / ScalarStricter, every text is put through parse_identifier as {key: 7} and {key: [7, 8]} and TraceTau!TrKey judges modifier, count and field name; plus seeded random key texts (padding, odd white space, keyword-shaped words, indexed and dotted names, counts at the limits, bracket soups).",
          "note": COMMON_NOTE + "Oracle is sound only inside the rule shapes the generators produce (well typed by construction); float text beyond 15 significant digits and non-decimal numeric strings are left open.", "technique": T},
- "C03": {"level": "TLC enumerates every condition over identifiers, and/or/not, parentheses, all()/of(), casts, numbers and comparison operators up to 3 (thorough 4) alphabet elements, checks the Pratt model against the reference grammar (operands of and/or/not are predicates, identifiers exist), and each string is loaded for real: what the grammar rejects must be rejected, and every accepted rule is optimised under 6 (thorough 17) switch states, matched against adversarial documents (every value kind incl. 64-bit extremes, NaN, empty and mixed containers) and validated - any panic is a violation. Plus seeded random rules with non-mapping examples, rules at the sizes where indices and bitmaps change representation (129-136 matrix columns, 63-70 list members), well- and ill-typed bodies (what TauType says loads must load and is then evaluated on values of every kind), and random condition texts whose load outcome the grammar model decides.",
+ "C03": {"level": "TLC enumerates every condition over identifiers, and/or/not, parentheses, all()/of(), casts, numbers and comparison operators up to 3 (thorough 4) alphabet elements, checks the Pratt model against the reference grammar (operands of and/or/not are predicates, identifiers exist), and each string is loaded for real: what the grammar rejects must be rejected, and every accepted rule is optimised under 6 (thorough 17) switch states, matched against adversarial documents (every value kind incl. 64-bit extremes, NaN, empty and mixed containers) and validated - any panic is a violation. Plus seeded random rules with non-mapping examples, rules at the sizes where indices and bitmaps change representation (129-136 matrix columns, 63-70 list members), well- and ill-typed bodies (what TauType says loads must load and is then evaluated on values of every kind), and random condition texts whose load outcome the grammar model decides. Keys with stray brackets (`a]b[0]`, `arr[[0]]`) are matched, not only loaded; condition texts are loaded again with one identifier block missing; same-field entry families (`samef`).",
          "note": COMMON_NOTE + "Panics are observed with catch_unwind in a release build with overflow checks and debug assertions on.", "technique": T},
  "C04": {"level": "Model: the condition scanner as a TLA+ step machine over all strings of length <= 3 (thorough 4) over 28 character classes (progress, position in range, termination under weak fairness, agreement with the recursive definition); the pattern-text cascade over all strings <= 3 (thorough 4) over the 13 characters with a syntactic role (no slice out of range, write/read law). Conformance: every enumerated pattern string and 3k (thorough 60k) fuzz cases (token soups, pattern soups, YAML shapes in every position, mutated repository rule files, nesting to depth 64, numerals at the 64-bit and f64 boundaries, comparisons exactly at the ends of the i64 range, regexes with large compiled programs alone and in lists, non-ASCII numerics after ASCII digits, NaN and infinity constants) are loaded through from_str, from_value and the core entry points under a watchdog; outcome must be ok or err - never a panic, never a call that does not return - and for modelled inputs the outcome/kind/argument the specification predicts. The textual layer of mapping KEYS is specified too (spec/TauKeyText.tla: engine layer = condition tokeniser, identifier runs re-joined with one blank, Pratt parse, classification of the root; language layer = the documented key forms NAME, int()/flt()/str()/not()/all()(NAME), of(NAME, N) with their meaning pinned): MC_Key enumerates every concatenation of up to 3 (thorough 4; C16: 4) of 16 pieces (69,905 texts at 4), TLC checks EngInRef / Written / ScalarStricter, every text is put through parse_identifier as {key: 7} and {key: [7, 8]} and TraceTau!TrKey judges totality (key_panic: a panic or a call that does not return); plus seeded random key texts (padding, odd white space, keyword-shaped words, indexed and dotted names, counts at the limits, bracket soups).",
          "note": COMMON_NOTE + "Says nothing about serde_yaml's own parser beyond not panicking on the fuzzed inputs; stack exhaustion beyond depth 64 is out of scope.", "technique": T},
@@ -275,19 +275,19 @@ MANIFEST_TEXT = {
          "note": COMMON_NOTE + "Three-valued results are observed through the engine's own `not`, itself one of the enumerated forms.", "technique": T_FOLD},
  "C07": {"level": "Exhaustive within the bound: alphabet {a,b,A}, needles <= 2, haystacks <= 3 (thorough 4), kinds exact/prefix/suffix/contains/any and 11 regex shapes, with and without the i flag; all singles and all ordered pairs with needles <= 1: TLC checks the hit-set model of the batched automaton against the documented relations, every case is replayed (also optimised) and validated. Pattern syntax itself (what 'x*', '*x', quotes, i mean) is checked on every string <= 3 (4) over the 13 syntax characters via into_identifier. Seeded: long and multi-byte strings, lists of 1-5 patterns, arrays.",
          "note": COMMON_NOTE + "Regexes outside the modelled sub-language (literals, ., .*, .*?, ^, $, Perl classes, bracket sets, + ? *) are not given a semantic oracle.", "technique": T},
- "C08": {"level": "TLC enumerates lists of 1..3 (thorough 5) members x seven member families (batched strings, mixed batch classes, case-mixed, numbers, booleans, nested mappings, regexes that become equal once their '.*' is stripped) x nine quantifier forms (key list, sequence, identifier list, sequence of matrix-shaped mappings) x thresholds 0..k+1 x complete and partial documents, checks the law 'quantified form = explicit form' in the language layer, and replays both writings as ONE case, not optimised and under optimised switch sets: TLC requires a single denotation per switch class and the count semantics. Seeded: lists up to 6 with subset expansion of of(n), identifiers written as one multi-key mapping, overlapping needles, arrays with repeated matches and with non-text elements, lists of 63-70 members with repeated occurrences.",
+ "C08": {"level": "TLC enumerates lists of 1..3 (thorough 5) members x seven member families (batched strings, mixed batch classes, case-mixed, numbers, booleans, nested mappings, regexes that become equal once their '.*' is stripped) x nine quantifier forms (key list, sequence, identifier list, sequence of matrix-shaped mappings) x thresholds 0..k+1 x complete and partial documents, checks the law 'quantified form = explicit form' in the language layer, and replays both writings as ONE case, not optimised and under optimised switch sets: TLC requires a single denotation per switch class and the count semantics. Seeded: lists up to 6 with subset expansion of of(n), identifiers written as one multi-key mapping, overlapping needles, arrays with repeated matches and with non-text elements, lists of 63-70 members with repeated occurrences. Same-field entries under all(A) / of(A, n) and as key-level lists, with repeated entries and array documents (`samefq`); quantified sequences of multi-key mappings in which one entry implies another, optimised with and without coalesce / matrix.",
          "note": COMMON_NOTE + "Lists with duplicate members are excluded ('distinct members' is ambiguous).", "technique": T},
- "C09": {"level": "Exact decimal digit arithmetic in TLA+ (TLC integers are 32-bit): TLC checks trichotomy, the unions >=,<=, NaN and the engine's representation-based comparison table over 64-bit boundary points; 257 (form, operator, constant) cases x 43 field values (i64::MIN..u64::MAX, signed zero, dyadic floats, 2^63 as float, NaN, infinities, numeric and odd strings, booleans, null, containers) are replayed; seeded random 64-bit values against random constants compared digit by digit, single values and list members; bare YAML constants above i64::MAX (float kind: soundness only), neighbouring doubles, bare numbers and non-canonical numeric texts under str(), number lists against texts and fractions, int() of texts at the i64 extremes, not(k) on comparisons against incomparable values; the static semantics (typ) decides which cast/value combinations load.",
+ "C09": {"level": "Exact decimal digit arithmetic in TLA+ (TLC integers are 32-bit): TLC checks trichotomy, the unions >=,<=, NaN and the engine's representation-based comparison table over 64-bit boundary points; 257 (form, operator, constant) cases x 43 field values (i64::MIN..u64::MAX, signed zero, dyadic floats, 2^63 as float, NaN, infinities, numeric and odd strings, booleans, null, containers) are replayed; seeded random 64-bit values against random constants compared digit by digit, single values and list members; bare YAML constants above i64::MAX (float kind: soundness only), neighbouring doubles, bare numbers and non-canonical numeric texts under str(), number lists against texts and fractions, int() of texts at the i64 extremes, not(k) on comparisons against incomparable values; the static semantics (typ) decides which cast/value combinations load. One cast key evaluated on several objects within one match (nested block over an array of objects, top level and nested block) with numbers as texts; str(a) == str(b) on values without a text form.",
          "note": COMMON_NOTE + "Floats are restricted to exactly representable short decimals; flt() of integers above 2^53 and str() of floats beyond 15 digits are left open.", "technique": T},
  "C10": {"level": "TLC enumerates every document shape to depth 1 (thorough 2) under a root {a, b} with position-labelled leaves x every well-formed path of <= 3 (2) segments over {a,b,a[0],a[1],b[0]} and checks the engine's cursor walk against descent; every (document, key) is then asked of Object::find / Document::find on four representations and the returned value compared structurally; keys with an empty segment (a., .a, a..b), with a non-numeric index (a[], a[x]) or with a numeric NAME (a.0) are proved missing in the model and in the engine walk. A nested mapping over every array of <= 2 (3) elements (objects with each key good/bad/absent, scalars, empty arrays) is checked against 'some element satisfies it' (MC_Nest). Seeded: dotted/indexed keys and nested mappings through Rule::matches on documents with arrays of objects and null leaves; nested blocks on one field under all 17 switch sets. A signed index (a[+1]) and a second index group (a[1][2]) are missing in the model; the code's former behaviour is kept as the named deviations index_plus / index_first_group (off since the repair).",
          "note": COMMON_NOTE + "Ill-formed keys (a[0][1], a..b) are checked for totality only.", "technique": T},
- "C11": {"level": "Every (rule, abstract document) of 600 (thorough 12k) seeded cases is matched through up to 10 representations (serde_yaml value and re-parsed text, serde_json value and re-parsed text, HashMap over std types i8..u64/f32/f64/Option/Vec/HashSet/nested maps, a hand-written Object with unsigned and with signed non-negative integers, a hand-written Document, a hand-written Object whose content is reachable only through its overridden find(), a flat-table Document of full dotted paths); TLC binds one denotation per (switch class, document) and rejects any disagreement. A third of the cases are numeric predicates over integer width boundaries (i8..u64) and over floats that are exact in f32 but long in decimal; flt() casts at the width boundaries; paths whose steps meet the other container (t.0 on an array, t[0] on an object). Texts that end in a line break under end-sensitive patterns; NaN and infinities through every representation that can carry them.",
+ "C11": {"level": "Every (rule, abstract document) of 600 (thorough 12k) seeded cases is matched through up to 10 representations (serde_yaml value and re-parsed text, serde_json value and re-parsed text, HashMap over std types i8..u64/f32/f64/Option/Vec/HashSet/nested maps, a hand-written Object with unsigned and with signed non-negative integers, a hand-written Document, a hand-written Object whose content is reachable only through its overridden find(), a flat-table Document of full dotted paths); TLC binds one denotation per (switch class, document) and rejects any disagreement. A third of the cases are numeric predicates over integer width boundaries (i8..u64) and over floats that are exact in f32 but long in decimal; flt() casts at the width boundaries; paths whose steps meet the other container (t.0 on an array, t[0] on an object). Texts that end in a line break under end-sensitive patterns; NaN and infinities through every representation that can carry them. Texts spelled like YAML 1.1 booleans, nulls and numbers (NO, on, ~, 1.0, 0x10) as string values in every representation.",
          "note": COMMON_NOTE + "NaN/inf cannot be carried by JSON and are skipped there.", "technique": T},
- "C12": {"level": "Per seeded case: each of 5 switch sets is optimised 4 times (printed expression must be identical - bound in the specification's `prints`), a second optimise() with other switches must be the identity (spec action ReOptimise), every document is matched from the main thread, from 4 free-running threads sharing one &Rule in different orders, and - for nested rules - from 16 threads that walk a hand-written document in LOCK STEP (every Object::get is a rendezvous: the schedule with maximal overlap); every case is executed again later in the same process in reverse order and once more in a second process in reverse order, every second case is the case-flag twin of its predecessor, lists of 65-200 needles are matched in runs of different sizes, quantified lists meet mistyped fields, or-groups hold several batches of equal size, and three rules with six 120-needle lists each are optimised 96 times in one process (prints compared by length and hash); TLC requires every observation of a (switch class, document) to equal the bound denotation. The action property Pure (matching changes no rule state) is part of TauRule. Model stage: the life-cycle machine itself (spec/TauRule.tla) is explored by TLC on its own (spec/MC_Life.tla): every schedule of opt / match / validate / serialise+reload / re-optimise / edit-the-example-lists calls on four small rules, up to 2 (thorough 3) objects and 4 (5) calls, with design-level invariants (DenSound, ValidateLaw, ReloadPlain, OnceOnly, SwBlind, the action property Pure); the schedule of every TRANSITION of the abstract state graph (history hidden by a VIEW) is executed call by call against real Rule objects (runner `sched`) and the recorded events validated like any other trace. The second process runs with a log subscriber listening at DEBUG; threads start together behind a barrier and walk the documents repeatedly; regexes over 600-character values; conditions that name an identifier in a spelling no key has.",
+ "C12": {"level": "Per seeded case: each of 5 switch sets is optimised 4 times (printed expression must be identical - bound in the specification's `prints`), a second optimise() with other switches must be the identity (spec action ReOptimise), every document is matched from the main thread, from 4 free-running threads sharing one &Rule in different orders, and - for nested rules - from 16 threads that walk a hand-written document in LOCK STEP (every Object::get is a rendezvous: the schedule with maximal overlap); every case is executed again later in the same process in reverse order and once more in a second process in reverse order, every second case is the case-flag twin of its predecessor, lists of 65-200 needles are matched in runs of different sizes, quantified lists meet mistyped fields, or-groups hold several batches of equal size, and three rules with six 120-needle lists each are optimised 96 times in one process (prints compared by length and hash); TLC requires every observation of a (switch class, document) to equal the bound denotation. The action property Pure (matching changes no rule state) is part of TauRule. Model stage: the life-cycle machine itself (spec/TauRule.tla) is explored by TLC on its own (spec/MC_Life.tla): every schedule of opt / match / validate / serialise+reload / re-optimise / edit-the-example-lists calls on four small rules, up to 2 (thorough 3) objects and 4 (5) calls, with design-level invariants (DenSound, ValidateLaw, ReloadPlain, OnceOnly, SwBlind, the action property Pure); the schedule of every TRANSITION of the abstract state graph (history hidden by a VIEW) is executed call by call against real Rule objects (runner `sched`) and the recorded events validated like any other trace. The second process runs with a log subscriber listening at DEBUG; threads start together behind a barrier and walk the documents repeatedly; regexes over 600-character values; conditions that name an identifier in a spelling no key has. Loads that fail on a malformed number token stand between ordinary loads on the loader thread.",
          "note": COMMON_NOTE + "Schedules of the real threads are sampled (free-running) or forced (lock step), not enumerated.", "technique": T},
  "C13": {"level": "validate() is specified as a function of the bound denotation of the same switch class (TauRule!ValidateOk): ok iff no true_positives example fails and no true_negatives example matches, else a Validation error naming exactly the failing examples (markers planted in the examples; unmarked examples let the same document stand in both lists or twice in one), err (not panic) for a non-mapping example (text, number, null, lists incl. the empty one), flat dotted-key spellings of nested documents as examples. 800 (15k) seeded cases, unoptimised and two optimised forms. Model stage: the life-cycle machine itself (spec/TauRule.tla) is explored by TLC on its own (spec/MC_Life.tla): every schedule of opt / match / validate / serialise+reload / re-optimise / edit-the-example-lists calls on four small rules, up to 2 (thorough 3) objects and 4 (5) calls, with design-level invariants (DenSound, ValidateLaw, ReloadPlain, OnceOnly, SwBlind, the action property Pure); the schedule of every TRANSITION of the abstract state graph (history hidden by a VIEW) is executed call by call against real Rule objects (runner `sched`) and the recorded events validated like any other trace. validate() may come before any match (the language layer then pins the verdicts) and must follow the example lists the object holds NOW (they are public fields: action EditExamples); merge-key spellings (`<<`) of example documents.",
          "note": COMMON_NOTE, "technique": T},
- "C14": {"level": "Each object (unoptimised and optimised) is serialised, reloaded through from_str and from_value; the reloaded rule's detection and examples must equal the rule AS WRITTEN (canonical YAML comparison; identifier names differing only in case, quoting-sensitive strings) and its verdicts are held against the denotation of the not-optimised class; from_str/from_value must agree on load outcome; matching the reloaded rule must not panic. Model stage: the life-cycle machine itself (spec/TauRule.tla) is explored by TLC on its own (spec/MC_Life.tla): every schedule of opt / match / validate / serialise+reload / re-optimise / edit-the-example-lists calls on four small rules, up to 2 (thorough 3) objects and 4 (5) calls, with design-level invariants (DenSound, ValidateLaw, ReloadPlain, OnceOnly, SwBlind, the action property Pure); the schedule of every TRANSITION of the abstract state graph (history hidden by a VIEW) is executed call by call against real Rule objects (runner `sched`) and the recorded events validated like any other trace. One text in ten repeats its first identifier key with another definition: it must not load, and if it did, the definition evaluated and the one serialised must be the same. One `ser` text in eight is written in another SPELLING of the same YAML value (explicit null for an empty example list, an unreferenced identifier named by a number / float / boolean / null scalar, a document-start marker, a comment): the value path loads the value that very text parses to and must agree with the text path.",
+ "C14": {"level": "Each object (unoptimised and optimised) is serialised, reloaded through from_str and from_value; the reloaded rule's detection and examples must equal the rule AS WRITTEN (canonical YAML comparison; identifier names differing only in case, quoting-sensitive strings) and its verdicts are held against the denotation of the not-optimised class; from_str/from_value must agree on load outcome; matching the reloaded rule must not panic. Model stage: the life-cycle machine itself (spec/TauRule.tla) is explored by TLC on its own (spec/MC_Life.tla): every schedule of opt / match / validate / serialise+reload / re-optimise / edit-the-example-lists calls on four small rules, up to 2 (thorough 3) objects and 4 (5) calls, with design-level invariants (DenSound, ValidateLaw, ReloadPlain, OnceOnly, SwBlind, the action property Pure); the schedule of every TRANSITION of the abstract state graph (history hidden by a VIEW) is executed call by call against real Rule objects (runner `sched`) and the recorded events validated like any other trace. One text in ten repeats its first identifier key with another definition: it must not load, and if it did, the definition evaluated and the one serialised must be the same. One `ser` text in eight is written in another SPELLING of the same YAML value (explicit null for an empty example list, an unreferenced identifier named by a number / float / boolean / null scalar, a document-start marker, a comment): the value path loads the value that very text parses to and must agree with the text path. A third load path, Rule::load of one file per process that every case overwrites, must yield the rule of the text just written.",
          "note": COMMON_NOTE + "Identifier order in the serialised text is HashMap order and is ignored.", "technique": T},
  "C15": {"level": "The harness is built twice (default and feature ignore_case); both run the same seeded cases in which every string pattern is case-insensitive (default build writes the i prefix, ignore_case build does not); the merged trace is validated by TLC against one denotation and the case-insensitive language-layer oracle, not optimised and optimised. The pattern-text model is TLC-checked with IcBuild = TRUE, and every pattern string of length <= 3 over the 13 syntax characters is put through into_identifier in BOTH builds, each result judged with the build that produced it (kind, case flag, argument, regex source text). Field names keep their case in both builds (documents with a case-swapped name), and str(a) == str(b) in the condition stays exact. Booleans and numbers under a str() cast next to patterns on the same field (they are exact texts, not patterns: no build folds them), optimised with shake.",
          "note": COMMON_NOTE, "technique": T},
